@@ -341,10 +341,17 @@ def straight_table():
 
 
 def judge_estimate(ctx, dur, div, ret):
-    if not isinstance(dur, (int, np.integer)) or not isinstance(div, (int, np.integer)) or div <= 0 or dur < 0:
+    if not isinstance(div, (int, np.integer)) or div <= 0:
+        return
+    if isinstance(dur, (float, np.floating)) and float(dur) > 0 and float(dur) * 4 == int(float(dur) * 4):
+        # a duration that is not a whole number of divisions (a quarter of a division is exact in binary)
+        dur_exact = Fraction(float(dur))
+    elif isinstance(dur, (int, np.integer)) and dur >= 0:
+        dur_exact = Fraction(int(dur))
+    else:
         return
     ctx.check()
-    exact = Fraction(int(dur), int(div))
+    exact = dur_exact / int(div)
     if ret:
         if isinstance(ret, tuple):
             return
@@ -355,7 +362,7 @@ def judge_estimate(ctx, dur, div, ret):
             else:
                 key = "estimate_symbolic_duration-approximate-table-hit-does-not-convert-back"
             ctx.violation(key, f"estimate_symbolic_duration({dur}, {div}) = {ret} which is {float(val * div)} divs",
-                          {"dur": int(dur), "div": int(div), "result": ret})
+                          {"dur": float(dur_exact), "div": int(div), "result": ret})
         else:
             # ... and the library's own inverse returns the numeric duration
             import partitura.utils.music as M_
@@ -364,7 +371,7 @@ def judge_estimate(ctx, dur, div, ret):
                 back = M_.symbolic_to_numeric_duration(dict(ret), int(div))
             except Exception as e:  # noqa
                 back = f"{type(e).__name__}: {e}"
-            if isinstance(back, str) or abs(float(back) - int(dur)) > 1e-6:
+            if isinstance(back, str) or abs(float(back) - float(dur_exact)) > 1e-6:
                 ctx.violation("symbolic_to_numeric_duration-does-not-return-the-numeric-duration",
                               f"estimate_symbolic_duration({dur}, {div}) = {ret}; symbolic_to_numeric_duration of it gives {back!r}",
                               {"dur": int(dur), "div": int(div), "result": ret})
@@ -595,5 +602,10 @@ def run_item(ctx, item):
             for d in ds:
                 ctx.call(M.estimate_symbolic_duration, d, div)
                 n += 1
+            # durations that are not a whole number of divisions (a 16th at 2 divisions per quarter is 0.5)
+            for d in rng.sample(list(ds), min(12, len(ds))):
+                ctx.call(M.estimate_symbolic_duration, d + rng.choice([0.5, 0.25, 0.75]), div)
+                ctx.call(M.estimate_symbolic_duration, d - rng.choice([0.5, 0.25, 0.75]), div)
+                n += 2
         ctx.extra["table_entries"] += n
         ctx.case(["table", lo, hi, frac], True, cls="duration-table", sample={"divisions": [lo, hi - 1], "entries": n, "fraction": frac})
